@@ -4,7 +4,7 @@
    destroyed values predicted by the specification). *)
 From SV Require Import Base.ListX Store.Raw Store.RawRefine Store.CleanProps Store.Masked Store.StoreInv Store.Bag Store.Ledger
   Store.ClearLedger Store.DeadHandle
-  World.Env World.SopLedger World.WorldLedger World.HistoryLedger World.WorldSpec World.World World.Simulation World.NoStuck.
+  World.Env World.Join World.SopLedger World.WorldLedger World.JoinLedger World.HistoryLedger World.WorldSpec World.World World.Simulation World.NoStuck.
 From Coq Require Import Sorting.Permutation.
 
 (* no operation ever reads a slot that was never written, was moved out, or lies outside the
@@ -151,8 +151,9 @@ Theorem C08_every_storage_operation_conserves : forall ms m av ent so c, LInvS m
 Proof. exact sop_conserves. Qed.
 
 (* ---- whole histories, on the specification world (every storage the plain map; the implementation's results and
-   destroyed values are compared with it on every explored history): for every history without join operations
-   (they have their own cell-level theorems, C06) in which components are registered before use, whatever the world
+   destroyed values are compared with it on every explored history): for every history (joins included:
+   what a join hands out for good are the values its drain members removed) in which components are registered
+   before use, whatever the world
    holds at the end, everything handed back and everything destroyed along the way are - as multisets - what it
    held at the start plus everything moved in ---- *)
 Theorem C08_history_conserves : forall tr w L0, WInv w -> regs_ok w tr = true ->
@@ -168,6 +169,24 @@ Theorem C08_everything_handed_back_or_destroyed_exactly_once : forall tr,
   keys_of (s_env (fst (srun (s_init_env true) tr))) = [] ->
   Permutation (run_rets (s_init_env true) tr ++ run_drops (s_init_env true) tr) (run_ins (s_init_env true) tr).
 Proof. exact everything_handed_back_or_destroyed. Qed.
+
+(* ---- joins: a join that does not go wrong moves nothing in and destroys nothing; what leaves the storages for
+   good are exactly the values its drain members removed, each once, and they are the drain's items ---- *)
+Theorem C08_a_join_hands_out_exactly_what_it_drained : forall e av eids hs k ms, plain_env e ->
+  cx_stuck (se_cx (fst (env_join e av eids hs k ms))) = false ->
+  estep_ok e (fst (env_join e av eids hs k ms)) [] (jout_rets ms (snd (env_join e av eids hs k ms))).
+Proof. exact env_join_ledger. Qed.
+
+Example C08_join_history_nonvacuous :
+  let os := [OStore (SRegister 0); OCreate [(0, (1, 10%Z))]; OCreate [(0, (2, 20%Z))]; OCreate [(0, (3, 30%Z))];
+             OJoin (JSeq (Some 2%nat)) [MEntities; MDrain 0]; OJoin (JLend None) [MWrite 0 true (Some 5%Z)]; ODropWorld] in
+  let choices := [[]; [0]; [1]; [2]; []; []; []] in
+  let outs := snd (srun (s_init_env true) (combine os (map (fun c => WHandles (map (fun i => (i, 1%Z)) c)) choices))) in
+  let tr := combine os outs in
+  regs_ok (s_init_env true) tr = true /\ forallb (fun p => ledger_op (fst p)) tr = true /\
+  keys_of (s_env (fst (srun (s_init_env true) tr))) = [] /\
+  run_ins (s_init_env true) tr = [1; 2; 3] /\ run_rets (s_init_env true) tr = [1; 2] /\ run_drops (s_init_env true) tr = [3].
+Proof. vm_compute. repeat split; reflexivity. Qed.
 
 Example C08_history_nonvacuous :
   let os := [OStore (SRegister 0); OCreate [(0, (1, 10%Z))]; OCreate [(0, (2, 20%Z))];
@@ -205,5 +224,6 @@ Print Assumptions C08_entry_api_conserves.
 Print Assumptions C08_clear_conserves.
 Print Assumptions C08_get_mut_or_default_conserves.
 Print Assumptions C08_every_storage_operation_conserves.
+Print Assumptions C08_a_join_hands_out_exactly_what_it_drained.
 Print Assumptions C08_history_conserves.
 Print Assumptions C08_everything_handed_back_or_destroyed_exactly_once.
